@@ -121,3 +121,22 @@ Section Cggmp.
        (in_k inp i / delta inp) * m + xc (big_gamma inp) * (chi_of inp i / delta inp) <> f0 K).
 
 End Cggmp.
+
+(* ---- concrete instance used by the correspondence check ----------------------------- *)
+From Coq Require Import ZArith.
+(* alpha determined by the correlation: alpha j i = gamma j * k i - beta j i *)
+Definition cggmp_inputs_Z (q : Z) (n : nat) (k gamma x : list Z) (beta betah : list (list Z)) : inputs (F:=Z) :=
+  let g1 (l : list Z) (i : nat) := nth i l 0%Z in
+  let g2 (l : list (list Z)) (i j : nat) := nth j (nth i l []) 0%Z in
+  mk_inputs n (g1 k) (g1 gamma) (g1 x)
+    (fun j i => fsub (Zp q) (fmul (Zp q) (g1 gamma j) (g1 k i)) (g2 beta j i)) (g2 beta)
+    (fun j i => fsub (Zp q) (fmul (Zp q) (g1 x j) (g1 k i)) (g2 betah j i)) (g2 betah).
+
+Definition cggmp_run_Z (q : Z) (inp : inputs (F:=Z)) (m y rx : Z) (odd over : bool)
+  : option (Z * Z * (bool * bool)) * Z :=
+  let K := Zp q in
+  let g := big_gamma K inp in
+  let xcf := fun e : Z => if ((e =? g) || (e =? fopp K g))%Z then rx else fadd K rx 1%Z in
+  let yoddf := fun e : Z => if (e =? g)%Z then odd else negb odd in
+  let xoverf := fun _ : Z => over in
+  (sign K xcf yoddf xoverf inp m y, g).
